@@ -3347,14 +3347,17 @@ impl<F: VfsFile> LSMIterator for BPlusTreeIterator<'_, F> {
 				.keys
 				.partition_point(|k| self.tree.compare.compare(k, target) == Ordering::Less);
 
-			// If we're past the end of this leaf, advance to next
-			if self.current_idx >= leaf.keys.len()
-				&& !self
+			// If we're past the end of this leaf, advance to the next non-empty leaf
+			let mut past_end = self.current_idx >= leaf.keys.len();
+			while past_end {
+				if !self
 					.advance_to_next_leaf()
 					.map_err(|e| crate::error::Error::BPlusTree(e.to_string()))?
-			{
-				self.exhausted = true;
-				return Ok(false);
+				{
+					self.exhausted = true;
+					return Ok(false);
+				}
+				past_end = self.current_leaf.as_ref().map_or(true, |l| l.keys.is_empty());
 			}
 		}
 
@@ -3429,16 +3432,17 @@ impl<F: VfsFile> LSMIterator for BPlusTreeIterator<'_, F> {
 
 		self.current_idx += 1;
 
-		// Check if we need to advance to next leaf
-		if let Some(leaf) = &self.current_leaf {
-			if self.current_idx >= leaf.keys.len()
-				&& !self
-					.advance_to_next_leaf()
-					.map_err(|e| crate::error::Error::BPlusTree(e.to_string()))?
+		// Check if we need to advance to the next non-empty leaf
+		let mut past_end = self.current_leaf.as_ref().map_or(false, |l| self.current_idx >= l.keys.len());
+		while past_end {
+			if !self
+				.advance_to_next_leaf()
+				.map_err(|e| crate::error::Error::BPlusTree(e.to_string()))?
 			{
 				self.exhausted = true;
 				return Ok(false);
 			}
+			past_end = self.current_leaf.as_ref().map_or(true, |l| l.keys.is_empty());
 		}
 
 		Ok(self.is_valid())
@@ -3456,13 +3460,18 @@ impl<F: VfsFile> LSMIterator for BPlusTreeIterator<'_, F> {
 		}
 
 		if self.current_idx == 0 {
-			// Need to retreat to previous leaf
-			if !self
-				.retreat_to_prev_leaf()
-				.map_err(|e| crate::error::Error::BPlusTree(e.to_string()))?
-			{
-				self.exhausted = true;
-				return Ok(false);
+			// Need to retreat to the previous non-empty leaf
+			loop {
+				if !self
+					.retreat_to_prev_leaf()
+					.map_err(|e| crate::error::Error::BPlusTree(e.to_string()))?
+				{
+					self.exhausted = true;
+					return Ok(false);
+				}
+				if self.current_leaf.as_ref().map_or(false, |l| !l.keys.is_empty()) {
+					break;
+				}
 			}
 		} else {
 			self.current_idx -= 1;
